@@ -111,8 +111,9 @@ var c19Kinds = []struct {
 	{"AttReqSecond", []string{"AttReq"}}, {"RepReqSecond", []string{"RepReq"}}, // a second open form of each kind
 	// governance sets parameters to the lowest values validation accepts / to values unlike the defaults
 	{"ParamsZeroSecond", nil}, {"ParamsAltSecond", nil},
-	{"AddRecordSecond", []string{"AddRecord"}},     // a second sub-record, added out of alphabetical order
-	{"KeybaseSecond", []string{"InitProvider:P1"}}, // a long provider identity with a multi-byte character across the 64th byte
+	{"AddRecordSecond", []string{"AddRecord"}}, // a second sub-record, added out of alphabetical order
+	{"KeybaseSecond", []string{"InitProvider:P1"}},
+	{"DeleteFileSecond", []string{"PostFile"}}, // the owner deletes the file while forms about its provers are open // a long provider identity with a multi-byte character across the 64th byte
 }
 
 func (s C19) Events(env world.Env, mm mc.Model) []string {
@@ -122,7 +123,7 @@ func (s C19) Events(env world.Env, mm mc.Model) []string {
 		if has(m.Done, k.name) {
 			continue
 		}
-		if !s.Deep && (k.name == "BuyStorageSecond" || k.name == "AttReqSecond" || k.name == "RepReqSecond" || k.name == "AddRecordSecond" || k.name == "KeybaseSecond" || strings.HasPrefix(k.name, "Params")) {
+		if !s.Deep && (k.name == "BuyStorageSecond" || k.name == "AttReqSecond" || k.name == "RepReqSecond" || k.name == "AddRecordSecond" || k.name == "KeybaseSecond" || k.name == "DeleteFileSecond" || strings.HasPrefix(k.name, "Params")) {
 			continue // reachable only far beyond the depth of the search from the empty state: explored by the Deep variant
 		}
 		ok := true
@@ -200,6 +201,8 @@ func c19Do(env world.Env, m *c19Model, ev string) bool {
 		return ok
 	case "KeybaseSecond":
 		msg = storagetypes.NewMsgSetProviderKeybase(w.A("P1").Bech, strings.Repeat("k", 63)+"\u00e9\u00e9 and then some more text to be well over the limit")
+	case "DeleteFileSecond":
+		msg = storagetypes.NewMsgDeleteFile(u, f.merkle, m.Start)
 	case "AddRecordSecond":
 		msg = rnstypes.NewMsgAddRecord(u, "alpha.jkl", "aaa", u, "{}")
 	case "BuyStorageSecond":
